@@ -160,7 +160,7 @@ CLAIMS = {
         "index and the signs of <Z_i> reported by TJM order 1/2, MCWF and Lindblad (t=0 and after evolution under a site-diagonal "
         "Hamiltonian) vs the model. Search: the solvers on asymmetric initial states (basis strings, Neel, wall) with random "
         "Hamiltonians and one-site noise against the dense master equation / unitary evolution. PARTIAL: RK45 meeting its "
-        "tolerance and the time-stepping error of TJM/MCWF are not mechanised (tolerances 2e-4 / 5e-3). Extended: two-site operator embedding (pair_digit) with theorem and tie through the four embedding front-ends; complex initial states, Y observables, two-site observables and processes in the search. Liouvillian tie (generator integrated by the Lindblad back-end vs dense master equation, switched-off entries); mixed two-site observables. Initial-state object histories.",
+        "tolerance and the time-stepping error of TJM/MCWF are not mechanised (tolerances 2e-4 / 5e-3). Extended: two-site operator embedding (pair_digit) with theorem and tie through the four embedding front-ends; complex initial states, Y observables, two-site observables and processes in the search. Liouvillian tie (generator integrated by the Lindblad back-end vs dense master equation, switched-off entries); mixed two-site observables. Initial-state object histories. Initial states with real-dtype site tensors through every back-end.",
         COMMON_NOTE,
         "DESIGN.md §3 C06"),
     "C04": (
